@@ -39,6 +39,7 @@ def sh(cmd, cwd=None, timeout=1800, env=None, inp=None):
 TRANSLATORS = [
     ("gen_rabin.py", "GenRabin.v"),
     ("gen_union.py", "GenUnionTable.v"),
+    ("gen_consts.py", "GenConsts.v"),
 ]
 
 def regenerate():
